@@ -51,6 +51,7 @@ Fresh(k, f, n) ==
     \* sample of a good step, which has no action
     /\ rcfg' = [shared |-> Ev.shared, refl |-> Ev.refl, T |-> 0]
     /\ conn' = [g \in Guns |-> "none"] /\ clk' = [g \in Guns |-> 0]
+    /\ dirty' = [g \in Guns |-> FALSE] /\ scratch' = [g \in Guns |-> {}]
     /\ nsample' = [i \in DOMAIN f |-> [ok |-> 0, fail |-> 0]]
 
 TRun == Ev.ev = "Run" /\ AllIdle /\ Fresh(Ev.kind, FileOf(Ev.entries), Ev.inst)
@@ -63,7 +64,7 @@ TShootBegin == /\ Ev.ev = "ShootBegin" /\ Ev.gun \in Guns /\ Cand # {}
                                     ELSE \E idx \in Cand : ShootBegin(Ev.gun, idx, Ev.gid)
 ObsRec == [method |-> Ev.method, fields |-> FSet(Ev.fields), md |-> MSet(Ev.md)]
 TRecv == /\ Ev.ev = "Recv"
-         /\ \E g \in Guns : sh[g].ph = "call" /\ Fits(CurStep(g), ObsRec) /\ SendAct(g, ObsRec, shared, cache, 0, Ev.srv)
+         /\ \E g \in Guns : sh[g].ph = "call" /\ Fits(CurStep(g), ObsRec) /\ SendAct(g, ObsRec, shared, cache, 0, Ev.srv, scratch)
 TSample == /\ Ev.ev = "Sample"
            /\ \E g \in Guns : sh[g].ph \in {"call", "sample"} /\ sh[g].gid = Ev.gid /\ Sample(g, Ev.tag, Ev.code = 200)
 TShootEnd == Ev.ev = "ShootEnd" /\ Ev.gun \in Guns /\ sh[Ev.gun].gid = Ev.gid /\ ShootEnd(Ev.gun)
